@@ -41,6 +41,8 @@ def havoc_locals(eng, fr, names):
                 ty = eng.value_type(v)
             except Unsupported:
                 continue
+            if isinstance(v, SetV) and v.ety == ANY:
+                raise Unsupported(f'loop modifies the set {nme!r} whose element type is unknown: annotate it')
             if isinstance(v, ConstSeq):
                 raise Unsupported(f'loop modifies the literal list {nme!r}: annotate it so that it lives in the heap')
             if ty == NONE:
